@@ -17,6 +17,15 @@ Fixpoint str_eqb (a b : str) : bool :=
 (** Coq string literal -> byte list (ASCII constants of the Go source). *)
 Definition s (x : string) : str := List.map N_of_ascii (list_ascii_of_string x).
 
+(** hexadecimal string literal -> byte list (how the correspondence check writes observed bytes) *)
+Definition hexval (a : ascii) : N :=
+  let n := N_of_ascii a in if N.leb n 57 then (n - 48)%N else (n - 87)%N.
+Fixpoint hx (x : string) : str :=
+  match x with
+  | String a x' => match x' with String b r => (16 * hexval a + hexval b)%N :: hx r | EmptyString => [] end
+  | EmptyString => []
+  end.
+
 Fixpoint mem_str (x : str) (l : list str) : bool :=
   match l with [] => false | y :: l' => str_eqb x y || mem_str x l' end.
 
